@@ -15,7 +15,7 @@ def table(rng, kind):
             r.update({'DE4': str(rng.choice([0, 1, 999999999999, rng.randrange(10 ** 12)])), 'DE26': str(rng.choice([0, 9999, 5411])), 'DE71': str(rng.choice([0, 1, 99999999]))})
             r['DE12'] = '20%02d-%02d-%02d %02d:%02d:%02d' % (rng.randint(0, 68), rng.randint(1, 12), rng.randint(1, 28), rng.randint(0, 23), rng.randint(0, 59), rng.randint(0, 59))
         if kind == 'meta':
-            r.update({'DE31': 'a,b "c" d', 'DE33': '12 34', 'DE93': "it's", 'DE94': ',', 'PDS0023': 'x,"y', 'DE42': 'ABC DEF GHI,JK '})
+            r.update({'DE41': '  TERM%02d' % (i % 100), 'PDS0165': ' M', 'DE37': ' %011d' % i,'DE31': 'a,b "c" d', 'DE33': '12 34', 'DE93': "it's", 'DE94': ',', 'PDS0023': 'x,"y', 'DE42': 'ABC DEF GHI,JK '})
         if kind == 'sparse' and i % 2:
             r.update({'DE38': '123456', 'PDS0148': '0361'})
         if kind == 'blanks':
